@@ -25,7 +25,7 @@ func (b *verifBody) Read(p []byte) (int, error) {
 	b.pos += n
 	return n, nil
 }
-func (b *verifBody) Close() error               { return nil }
+func (b *verifBody) Close() error              { return nil }
 func (b *verifBody) VerifAll() ([]byte, error) { return b.data, nil }
 
 type verifBMember struct {
